@@ -2,6 +2,8 @@
 package c12
 
 import (
+	"github.com/ucan-wg/go-ucan/pkg/policy"
+	"github.com/ucan-wg/go-ucan/pkg/policy/literal"
 	"encoding/json"
 	"fmt"
 	"os"
@@ -179,6 +181,36 @@ func run(c *h.Ctx, cs Case) {
 			}
 			c.Fail("C12/ref/novalue-expected/"+failingSeg(cs), "Select(%q) on %s: an optional field/index segment fails => 'no value', implementation: %s %s", text, canon(data), got.st, r)
 		}
+	}
+	// (1b) the same resolution as the POLICY evaluator sees it ("observed at policy match results"): a statement whose
+	// selector fails on a non-optional segment has no data - it fails the full match and passes the partial match,
+	// whatever the statement kind and also under not; nothing of the selector is skipped on the evaluator's own path
+	// to the data (quantifiers included)
+	if wst == sel.Error && got.st == sel.Error {
+		one := literal.Int(1)
+		inner := policy.Equal(".", one)
+		stmts := map[string]policy.Constructor{
+			"==": policy.Equal(text, one), "like": policy.Like(text, "*"), "<": policy.LessThan(text, one),
+			"all": policy.All(text, inner), "any": policy.Any(text, inner),
+			"not(==)": policy.Not(policy.Equal(text, one)), "not(all)": policy.Not(policy.All(text, inner)), "not(any)": policy.Not(policy.Any(text, inner)),
+			"and(all)": policy.And(policy.All(text, inner)), "or(any)": policy.Or(policy.Any(text, inner)),
+		}
+		for name, ct := range stmts {
+			p, err := policy.Construct(ct)
+			if err != nil {
+				continue
+			}
+			var m, pm bool
+			if pn, pv, _ := h.Try(func() { m, _ = p.Match(data); pm, _ = p.PartialMatch(data) }); pn {
+				c.Fail("C12/policy-view/panic", "matching %s over selector %q panicked: %v", name, text, pv)
+				return
+			}
+			if m || !pm {
+				c.Fail("C12/policy-view/failing-selector/"+name, "selector %q fails on %s (a non-optional segment: %s), so a statement over it has no data: Match must be false and PartialMatch true; %s gives Match=%v PartialMatch=%v", text, canon(data), failingSeg(cs), name, m, pm)
+				return
+			}
+		}
+		c.P.Class("policy-view:failing-selector")
 	}
 	// (2) compositionality with the implementation as its own step function
 	for k := 1; k < len(cs.Sel); k++ {
